@@ -52,6 +52,7 @@ type Contract struct {
 	Opaque   bool // never auto-inline
 	External bool // explicitly external: havoc
 	EffOnly  bool // carries only effect declarations: no VCs are generated for it
+	Build    string // build tag under which this contract applies ("" = default build)
 }
 
 func (ct *Contract) byKind(kind string) []*Clause {
@@ -425,6 +426,9 @@ func parseContractFile(path, pkgPath string) ([]*Contract, error) {
 			continue
 		case "effectsonly":
 			cur.EffOnly = true
+			continue
+		case "build":
+			cur.Build = strings.TrimSpace(rest)
 			continue
 		case "trusted":
 			cur.Trusted = true
